@@ -178,6 +178,81 @@ fn run_case_in(c: &Case, acc: &mut Acc, scratch: &str) {
     }
 }
 
+/// Candidate sets: for every population (subset of the entries below) and every typed prefix, the candidates offered
+/// are exactly the entries whose name starts with the prefix (directories only for `cd`).
+const POP: [(&str, bool); 9] = [("pa1", false), ("pa 2", false), ("pb", false), ("qx", false), ("pad", true), ("qd", true), (".pah", false), ("xpa", false), ("PA3", false)];
+const TYPED: [&str; 7] = ["p", "pa", "q", "", ".p", "P", "pa\\ "];
+
+#[derive(Clone)]
+pub struct CandCase {
+    mask: u32,
+    typed: usize,
+    for_dir: bool,
+}
+
+impl CaseRepr for CandCase {
+    fn repr(&self) -> Value {
+        let pop: Vec<&str> = (0..POP.len()).filter(|i| self.mask & (1 << i) != 0).map(|i| POP[i].0).collect();
+        json!({"entries": pop, "typed": TYPED[self.typed], "command": if self.for_dir { "cd" } else { "other" }})
+    }
+}
+
+fn run_cand_case(c: &CandCase, acc: &mut Acc, scratch: &str) {
+    acc.eval();
+    let d = format!("{}/c20cand-{}", scratch, std::process::id());
+    let _ = std::fs::remove_dir_all(&d);
+    std::fs::create_dir_all(&d).unwrap();
+    std::env::set_current_dir(&d).unwrap();
+    let mut expected: Vec<String> = Vec::new();
+    let prefix = TYPED[c.typed].replace("\\ ", " ");
+    for (i, (name, is_dir)) in POP.iter().enumerate() {
+        if c.mask & (1 << i) == 0 {
+            continue;
+        }
+        if *is_dir {
+            std::fs::create_dir(format!("{}/{}", d, name)).unwrap();
+        } else {
+            std::fs::write(format!("{}/{}", d, name), b"x").unwrap();
+        }
+        if name.starts_with(&prefix) && (*is_dir || !c.for_dir) {
+            expected.push(name.to_string());
+        }
+    }
+    expected.sort();
+    let res = explore::guarded(|| {
+        let mut got: Vec<String> = vh::complete_path(TYPED[c.typed], c.for_dir)
+            .into_iter()
+            .map(|(text, _)| {
+                // read the completion text back as the line parser would
+                let li = vh::parse_line(&text);
+                li.tokens.first().map(|t| t.1.trim_end_matches('/').to_string()).unwrap_or_default()
+            })
+            .collect();
+        got.sort();
+        got
+    });
+    std::env::set_current_dir("/").unwrap();
+    let _ = std::fs::remove_dir_all(&d);
+    match res {
+        Ok(got) if got == expected => {
+            if !expected.is_empty() {
+                acc.nontrivial();
+            }
+            acc.outcome("ok:candidates");
+            acc.state(&format!("cand|{}|{}", expected.len(), TYPED[c.typed]));
+        }
+        Ok(got) => {
+            acc.outcome("deviation:candidates");
+            let kind = if got.len() > expected.len() { "extra" } else if got.len() < expected.len() { "missing" } else { "different" };
+            acc.violation(&format!("candidates:{}:{}:typed[{}]", if c.for_dir { "cd" } else { "other" }, kind, TYPED[c.typed]), c.repr(), json!({"candidates": expected}), json!({"candidates": got}));
+        }
+        Err(p) => {
+            acc.outcome("deviation:panic");
+            acc.violation("candidates:panic", c.repr(), json!({"candidates": expected}), json!(p));
+        }
+    }
+}
+
 pub fn run(ctx: &Ctx) -> Value {
     let helpers = ctx.args.first().cloned().unwrap_or_else(|| "/verif/target/helpers".to_string());
     let home = format!("{}/c20home", ctx.scratch);
@@ -244,6 +319,17 @@ pub fn run(ctx: &Ctx) -> Value {
         if capped {
             break;
         }
+    }
+    // candidate sets
+    {
+        let t = Instant::now();
+        let sc = scratch.clone();
+        let gen = move || -> Box<dyn Iterator<Item = CandCase>> {
+            Box::new((0..(1u32 << POP.len())).flat_map(|mask| (0..TYPED.len()).flat_map(move |typed| [false, true].into_iter().map(move |for_dir| CandCase { mask, typed, for_dir }))))
+        };
+        let r = explore::par_sweep(gen, move |c: &CandCase, acc: &mut Acc| run_cand_case(c, acc, &sc), &opts);
+        levels.push(json!({"layer": "candidate sets: every subset of 9 entries (files, directories, hidden, name containing the prefix, other case) x 7 typed prefixes x {cd, other}", "cases": r.cases, "complete": !r.capped, "wall_s": t.elapsed().as_secs_f64()}));
+        total.merge(r);
     }
     let mut out = total.to_json();
     out["levels"] = json!(levels);
